@@ -3,7 +3,8 @@ Model of sharepoint2text/parsing/extractors/util/zip_bomb.py (+ the constructor 
 zip_context.ZipContext), function by function.  Core Lean only.
 
 * A `zipfile.ZipInfo` is reduced to the three fields the guard reads:
-  `(file_size, compress_size, is_dir())`.  Sizes are `Nat`: they are unsigned fields of the
+  `(file_size, compress_size, is_dir())`; `CdRecord` is the whole record with every other field and
+  `Entry.ofRecord` the projection (`is_dir()` = the name ends with '/').  Sizes are `Nat`: they are unsigned fields of the
   ZIP central directory (32 bit, or 64 bit in the ZIP64 extra field); `int(x or 0)` is the
   identity on them.
 * A ratio limit is the *exact* rational value `num/den` of the Python number
@@ -20,6 +21,36 @@ structure Entry where
   compressSize : Nat
   isDir : Bool
   deriving DecidableEq, Repr
+
+/-- One central-directory record as `zipfile` hands it out (the attributes of a `ZipInfo`): the member
+    name, the two sizes the guard reads, and EVERY other field a guard could consult.  The guard's model
+    `validate` works on `Entry`; `Entry.ofRecord` says which part of a record it may depend on. -/
+structure CdRecord where
+  filename : List Char
+  fileSize : Nat
+  compressSize : Nat
+  /-- low byte: MS-DOS attributes (bit 0x10 = directory); high 16 bits: unix `st_mode` -/
+  externalAttr : Nat
+  internalAttr : Nat
+  createSystem : Nat
+  createVersion : Nat
+  extractVersion : Nat
+  flagBits : Nat
+  compressType : Nat
+  crc : Nat
+  dosDate : Nat
+  dosTime : Nat
+  volume : Nat
+  extra : List Nat
+  comment : List Nat
+  deriving DecidableEq, Repr
+
+/-- the property's notion of a *directory entry*: the member NAME ends with `'/'`
+    (CPython `ZipInfo.is_dir()`: `self.filename.endswith('/')`) — nothing else of the record. -/
+def nameIsDir (name : List Char) : Bool := name.getLast? == some '/'
+
+/-- what the guard sees of a record -/
+def Entry.ofRecord (r : CdRecord) : Entry := ⟨r.fileSize, r.compressSize, nameIsDir r.filename⟩
 
 /-- exact value `num/den` of a ratio limit -/
 structure Ratio where
